@@ -125,6 +125,28 @@ def check(an, rep, tier):
         except ValueError as e:
             rep.violation('T-pattern', 'anova.ANOVA.cores_1', 'slot stores',
                           str(e), line=fn.node.lineno, file=mod.path)
+    # --- T-identity: the chaining cores of the pair terms are identities in
+    # the two bond axes, constant along the mode axis
+    from .. import interp as _interp
+    from ..values import INT as _INT
+    f1 = prog.func('anova._core_one')
+    I_ = _interp.Interp(prog, {})
+    rv = I_.run_function(f1, {'n': _INT(Poly.sym('n')),
+                              'r': _INT(Poly.sym('r'))})
+    dl = rv.delta if rv.k == 'arr' else None
+    rep.add('T-identity', 'anova._core_one', 'result is the identity in the '
+            'bond axes (0, 2), constant along the mode axis',
+            'ok' if dl == (0, 2) else
+            ('violation' if dl == 'broken' or isinstance(dl, tuple)
+             else 'unknown'),
+            '' if dl == (0, 2) else
+            ('the identity pattern of the chaining core pairs axes %s '
+             '(expected the two bond axes 0 and 2)' % (dl,)
+             if isinstance(dl, tuple) else
+             'a reshape scrambles the identity pattern: the paired axes of '
+             'np.eye end up on axes of different extent, so the core no '
+             'longer passes the bond index through'),
+            line=f1.node.lineno, file=f1.module.path)
     # --- interpreter runs
     ds = (2, 3) if tier == 'quick' else (2, 3, 4)
     wh = {'anova.ANOVA.cores_1', 'anova.ANOVA.cores_2', 'anova.ANOVA.cores',
@@ -251,6 +273,7 @@ def check(an, rep, tier):
                 if f.module.name in ('anova', 'anova_func')}
     _RP.check_param_forwarding(prog, rep, callers=_callers)
     rep.floor('T-pattern', 3, 'core patterns')
+    rep.floor('T-identity', 1, 'chaining cores')
     rep.floor('S-ret', 4, 'results')
     rep.floor('P-order', 3, 'build order')
     rep.floor('A-self', 5, 'object-state writes')
